@@ -641,8 +641,114 @@ func genSkeleton() string {
 	b.WriteString(strings.Join(names, ",\n  "))
 	b.WriteString("\n]\n\n")
 	fmt.Fprintf(&b, "def statementsSeen : Nat := %d\ndef statementsClassified : Nat := %d\n", total.stats.stmts, total.stats.classified)
+	b.WriteString("\n/-- every function of package fstxn that touches the inode lock table or the inode cache: the calls\n    `Lockmap.Acquire`, `Lockmap.Release`, `Icache.LookupSlot` (kind 0), the calls of other functions of this\n    list (kind 1) and anything else done to the two tables (kind 2), in source order -/\n")
+	b.WriteString("def slotUses : List (String × List (Nat × String)) := [\n  " + strings.Join(genSlotUses(), ",\n  ") + "\n]\n")
 	b.WriteString("\nend GoNfsd.Gen.Skeleton\n")
 	return b.String()
+}
+
+// genSlotUses: the order in which the functions of fstxn take the inode lock and fetch the
+// inode's cache slot.  A slot pointer fetched BEFORE the lock is held can be an evicted entry's
+// by the time the lock is granted (the LRU evicts regardless of waiters): the holder before us
+// and we would then work on two different objects for one inode.
+func genSlotUses() []string {
+	type fn struct {
+		name  string
+		calls []string
+	}
+	var fns []fn
+	own := map[string]bool{}
+	var decls []*ast.FuncDecl
+	for _, file := range []string{"fstxn/fstxn.go", "fstxn/commit.go"} {
+		fset := token.NewFileSet()
+		f, err := parser.ParseFile(fset, filepath.Join(repo, file), nil, 0)
+		if err != nil {
+			fail("slot uses: %v", err)
+		}
+		for _, d := range f.Decls {
+			if fd, ok := d.(*ast.FuncDecl); ok && fd.Body != nil {
+				decls = append(decls, fd)
+				own[fd.Name.Name] = true
+			}
+		}
+	}
+	selChain := func(e ast.Expr) []string {
+		var parts []string
+		for {
+			se, ok := e.(*ast.SelectorExpr)
+			if !ok {
+				break
+			}
+			parts = append([]string{se.Sel.Name}, parts...)
+			e = se.X
+		}
+		return parts
+	}
+	for _, fd := range decls {
+		var calls []string
+		ast.Inspect(fd.Body, func(n ast.Node) bool {
+			ce, ok := n.(*ast.CallExpr)
+			if !ok {
+				return true
+			}
+			ch := selChain(ce.Fun)
+			if len(ch) >= 2 {
+				m, owner := ch[len(ch)-1], ch[len(ch)-2]
+				switch {
+				case owner == "Lockmap" && (m == "Acquire" || m == "Release"):
+					calls = append(calls, m)
+				case owner == "Icache" && m == "LookupSlot":
+					calls = append(calls, m)
+				case owner == "Icache" || owner == "Lockmap":
+					calls = append(calls, owner+"."+m) // anything else on these two is unknown to the rule
+				}
+			}
+			if len(ch) >= 1 && own[ch[len(ch)-1]] && ch[len(ch)-1] != fd.Name.Name {
+				calls = append(calls, "call:"+ch[len(ch)-1])
+			}
+			return true
+		})
+		fns = append(fns, fn{fd.Name.Name, calls})
+	}
+	// keep the functions that touch the two tables, directly or through a function that does
+	rel := map[string]bool{}
+	for changed := true; changed; {
+		changed = false
+		for _, f := range fns {
+			if rel[f.name] {
+				continue
+			}
+			for _, c := range f.calls {
+				if !strings.HasPrefix(c, "call:") || rel[strings.TrimPrefix(c, "call:")] {
+					rel[f.name] = true
+					changed = true
+					break
+				}
+			}
+		}
+	}
+	var out []string
+	for _, f := range fns {
+		if !rel[f.name] {
+			continue
+		}
+		var qs []string
+		for _, c := range f.calls {
+			if strings.HasPrefix(c, "call:") && !rel[strings.TrimPrefix(c, "call:")] {
+				continue
+			}
+			switch {
+			case strings.HasPrefix(c, "call:"):
+				qs = append(qs, fmt.Sprintf("(1, %s)", q(strings.TrimPrefix(c, "call:"))))
+			case c == "Acquire" || c == "Release" || c == "LookupSlot":
+				qs = append(qs, fmt.Sprintf("(0, %s)", q(c)))
+			default:
+				qs = append(qs, fmt.Sprintf("(2, %s)", q(c)))
+			}
+		}
+		out = append(out, fmt.Sprintf("(%s, [%s])", q(f.name), strings.Join(qs, ", ")))
+	}
+	return out
 }
 
 // genMutexSkeleton: for every struct of the module that carries its own mutex (a field `mu`),
